@@ -418,6 +418,10 @@ def _iterable_expressions(repo, rep):
     from .c04 import _binders
     _binders(repo, rep, rule="R08.1", handlers=True,
              only=("GeneratorExp", "ListComp", "SetComp", "DictComp"))
+    # the loop variable's name goes into generated locals (backup, index):
+    # any name of the clause grammar must give an identifier
+    from .c05 import identifiers_safe
+    identifiers_safe(repo, rep, rule="R08.1")
     # 'unpacking into several': the name list of the clause grammar admits
     # any number of names
     from .. import rx
